@@ -15,4 +15,5 @@ CONSTANTS
   BugAccessorMutates = FALSE
   BugJsonAlias = FALSE
   BugEntryPointWritesTables = FALSE
+  BugCopyDiffers = FALSE
 CHECK_DEADLOCK FALSE
